@@ -17,7 +17,7 @@ import (
 	"verif/harness/lp"
 )
 
-const rule = "cases = (type, value, entry point, settings) tuples: exhaustive float32 sweep, integer boundary neighbourhoods (all values for 8/16-bit widths), Sigma-strings, time-format x time-class and duration-unit x class grids, and random logging programs; oracle = expected-value model (encoding/json float text, exact integers, U+FFFD text) + raw-byte identity across entry points; non-trivial = value is not the type's zero value and not plain lower-case ASCII; distinct = FNV-64 of (type,value,entry point,settings) serialisation, enumerated spaces counted by construction"
+const rule = "cases = (type, value, entry point, settings) tuples: exhaustive float32 sweep, integer boundary neighbourhoods (all values for 8/16-bit widths), Sigma-strings, time-format x time-class and duration-unit x class grids, and random logging programs; oracle = expected-value model (encoding/json float text at precision -1 and the documented strconv 'f' text with FloatingPointPrecision digits at the generated precisions 0,1,2,3,17,-2; exact integers, U+FFFD text) + raw-byte identity across entry points; non-trivial = value is not the type's zero value and not plain lower-case ASCII; distinct = FNV-64 of (type,value,entry point,settings) serialisation, enumerated spaces counted by construction"
 
 var rec = ev.New("C02", rule)
 
@@ -603,7 +603,6 @@ func TestRapidValues(t *testing.T) {
 		g := lp.NewG(rt, c02cfg())
 		set := g.Settings()
 		set.ErrMarshal = ""
-		set.FloatPrec = -1
 		if set.StackMarshal != "" && set.StackMarshal != "string" {
 			set.StackMarshal = ""
 		}
@@ -624,7 +623,6 @@ func TestRapidPrograms(t *testing.T) {
 		g := lp.NewG(rt, c02cfg())
 		p := g.Program(3, 2)
 		p.Set.ErrMarshal = ""
-		p.Set.FloatPrec = -1
 		if p.Set.StackMarshal != "" && p.Set.StackMarshal != "string" {
 			p.Set.StackMarshal = ""
 		}
